@@ -185,7 +185,9 @@ def deblend_sources(data, segment_img, npixels, *, labels=None, nlevels=32,
         nproc = cpu_count()  # pragma: no cover
 
     deblend_label_map = {}
-    max_label = segment_img.max_label
+    # Python int: a numpy scalar (e.g., uint64) would promote the new
+    # labels to a float dtype
+    max_label = int(segment_img.max_label)
     if nproc == 1:
         if progress_bar:  # pragma: no cover
             desc = 'Deblending'
@@ -724,7 +726,7 @@ def _create_relabel_map(array, start_label=1):
         return None
 
     # Create an array to map old labels to new labels
-    relabel_map = np.zeros(labels.max() + 1, dtype=array.dtype)
+    relabel_map = np.zeros(int(labels.max()) + 1, dtype=array.dtype)
     relabel_map[labels] = np.arange(len(labels)) + start_label
 
     return relabel_map
